@@ -152,13 +152,14 @@ Section Reader.
     end.
 
   (* the head of the loop body (repair F10): a remembered directory IN_MOVED_FROM that is followed by anything but its
-     IN_MOVED_TO has left the tree *)
+     IN_MOVED_TO on a descriptor the reader knows (i.e. into a directory of the tree) has left the tree *)
   Definition settle_pending (r : rstate) (k : kst) (e : kraw) : rstate * kst :=
     if c_fix_moveout C then
       match pend r with
       | Some (c, p) =>
         let r0 := {| wfp := wfp r; pfw := pfw r; mvf := mvf r; calls := calls r; pend := None |} in
-        if is_moved_to (k_mask e) && N.eqb (k_cookie e) c then (r0, k) else forget_tree (wfp r0) p r0 k
+        if is_moved_to (k_mask e) && N.eqb (k_cookie e) c && amem N.eqb (k_wd e) (pfw r)
+        then (r0, k) else forget_tree (wfp r0) p r0 k
       | None => (r, k)
       end
     else (r, k).
